@@ -5,6 +5,7 @@
 package c03
 
 import (
+	"io"
 	"bytes"
 	"encoding/hex"
 	"encoding/json"
@@ -44,6 +45,72 @@ func normNaN(v ref.Val) ref.Val {
 		return o
 	}
 	return v
+}
+
+// Reader shapes: the decoder's verdict is a function of the bytes, not of the io.Reader they come
+// through. "plain" has Read only (no ReadByte, no UnreadByte, no WriterTo); "limit" and "multi" are the
+// standard wrappers; "onebyte" serves one byte per Read; "tee" is what LinkSystem.Fill decodes through.
+var ReaderShapes = []string{"plain", "limit", "multi", "onebyte", "tee"}
+
+type plainReader struct{ r io.Reader }
+
+func (p plainReader) Read(b []byte) (int, error) { return p.r.Read(b) }
+
+type oneByteReader struct{ r io.Reader }
+
+func (o oneByteReader) Read(b []byte) (int, error) {
+	if len(b) == 0 {
+		return 0, nil
+	}
+	return o.r.Read(b[:1])
+}
+
+func shaped(b []byte, shape string) io.Reader {
+	switch shape {
+	case "plain":
+		return plainReader{bytes.NewReader(b)}
+	case "limit":
+		return io.LimitReader(bytes.NewReader(b), int64(len(b))+10)
+	case "multi":
+		return io.MultiReader(bytes.NewReader(b[:len(b)/2]), bytes.NewReader(b[len(b)/2:]))
+	case "onebyte":
+		return oneByteReader{bytes.NewReader(b)}
+	case "tee":
+		return io.TeeReader(bytes.NewReader(b), io.Discard)
+	}
+	return bytes.NewReader(b)
+}
+
+// CheckShapes: the verdict (accept / reject) through every reader shape equals the verdict through a
+// bytes.Reader, in strict mode.
+func CheckShapes(b []byte) (fs []core.Finding) {
+	verdict := func(rd io.Reader) (bool, string) {
+		nb := basicnode.Prototype.Any.NewBuilder()
+		var err error
+		if pan := core.Guard(func() { err = dagcbor.DecodeOptions{AllowLinks: true}.Decode(nb, rd) }); pan != "" {
+			return false, "panic:" + pan
+		}
+		if err != nil {
+			return false, err.Error()
+		}
+		v, _ := ref.Read1(nb.Build())
+		return true, v.Key()
+	}
+	acc0, what0 := verdict(bytes.NewReader(b))
+	for _, sh := range ReaderShapes {
+		acc, what := verdict(shaped(b, sh))
+		if acc != acc0 || acc && what != what0 {
+			fs = append(fs, core.F("strict/decode/reader-shape-dependent("+sh+")", "input %x: through a bytes.Reader accepted=%v (%s), through %s accepted=%v (%s)", b, acc0, short(what0), sh, acc, short(what)))
+		}
+	}
+	return
+}
+
+func short(s string) string {
+	if len(s) > 80 {
+		return s[:80] + "…"
+	}
+	return s
 }
 
 func libDecode(b []byte, relaxed bool) (v ref.Val, accepted bool, errText string, panicked string) {
@@ -123,6 +190,7 @@ var structAlphabet = []byte{
 }
 
 type worker struct {
+	shapes bool // also decode through every reader shape (inputs short enough to afford it)
 	r  *core.Run
 	lc core.LocalCounters
 	nt int64
@@ -142,6 +210,13 @@ func (w *worker) one(b []byte, origin string) (rej *ref.Rej) {
 		if len(fs) > 0 {
 			w.r.Report("bytes", Case{Hex: hex.EncodeToString(b), Relaxed: relaxed, Origin: origin}, fs)
 		}
+	}
+	if w.shapes && len(b) > 0 {
+		if fs := CheckShapes(b); len(fs) > 0 {
+			w.r.Report("bytes", Case{Hex: hex.EncodeToString(b), Origin: origin + "/reader-shapes"}, fs)
+		}
+		w.lc.Transitions += int64(len(ReaderShapes))
+		w.lc.Evals++
 	}
 	w.lc.States++
 	return rej
@@ -239,7 +314,7 @@ func Main(r *core.Run) {
 		// mutation closure of valid encodings)
 		L, Ls, noPrune = 3, 5, 4
 	}
-	r.Rule(fmt.Sprintf("every byte string of length ≤%d over 256 values; every string of length ≤%d over a %d-byte structural alphabet (pruned beyond length %d below prefixes the reference rejects as malformed or accepts as complete); every single mutation (and, thorough, pairs on short encodings) of valid encodings; each in strict and relaxed mode. Non-trivial = verdict not decided as 'truncated' (the decoder consumed at least one whole head and went on); distinct by construction of the odometer / per-base de-duplication.", L, Ls, len(structAlphabet), noPrune))
+	r.Rule(fmt.Sprintf("every byte string of length ≤%d over 256 values; every string of length ≤%d over a %d-byte structural alphabet (pruned beyond length %d below prefixes the reference rejects as malformed or accepts as complete); every single mutation (and, thorough, pairs on short encodings) of valid encodings; each in strict and relaxed mode; every input of ≤2 bytes, every structural string of ≤3 symbols and every mutant of the valid encodings also through five reader shapes (Read-only, LimitReader, MultiReader, one byte per Read, TeeReader): same verdict as through a bytes.Reader. Non-trivial = verdict not decided as 'truncated' (the decoder consumed at least one whole head and went on); distinct by construction of the odometer / per-base de-duplication.", L, Ls, len(structAlphabet), noPrune))
 	r.Assume("CID validity is delegated to go-cid (cid.Cast) in both the library and the reference")
 	r.Assume("the reference decoder (mc/ref/refcbor.go) is the statement of strict DAG-CBOR; written from the property text, independent of refmt")
 	sweepAll(r, L)
